@@ -5,6 +5,7 @@
 export GOFLAGS=-mod=mod GOPROXY=off GOSUMDB=off GOTOOLCHAIN=local
 confirm=0; if [ "$1" = "--confirm" ]; then confirm=1; shift; fi
 id=$1; shift
+RACE=""; case $id in C19*) RACE="-race";; esac
 src=/verif/seeded/$id
 if [ $confirm = 1 ]; then
   wt=/tmp/seedconfirm_$id
@@ -14,9 +15,9 @@ if [ $confirm = 1 ]; then
   pkgdir=$(dirname $intended)
   testname=$(grep -oE "^func (Test[A-Za-z0-9_]+)" $demo | head -1 | awk '{print $2}')
   cd $wt; cp $demo $wt/$intended
-  echo "-- demo without the change:"; go test -vet=off -count=1 -run "^${testname}\$" ./$pkgdir 2>&1 | grep -E "^(ok|FAIL|---|panic)" | head -3
+  echo "-- demo without the change:"; go test $RACE -vet=off -count=1 -run "^${testname}\$" ./$pkgdir 2>&1 | grep -E "^(ok|FAIL|---|panic)" | head -3
   git apply $src/patch.diff && { echo "-- build:"; go build ./... 2>&1 | tail -2
-  echo "-- demo with the change:"; go test -vet=off -count=1 -run "^${testname}\$" ./$pkgdir 2>&1 | grep -E "^(ok|FAIL|---|panic)" | head -3; }
+  echo "-- demo with the change:"; go test $RACE -vet=off -count=1 -run "^${testname}\$" ./$pkgdir 2>&1 | grep -E "^(ok|FAIL|---|panic)" | head -3; }
   cd /; git -C /repo worktree remove --force $wt
 fi
 cd /repo || exit 2
